@@ -11,6 +11,8 @@ for s in $seeds; do
   t0=$(date +%s)
   timeout 1500 ./check $prop --tier quick > /tmp/seedm_$s.log 2>&1; rc=$?
   git -C /repo checkout -q -- .
+  # the evidence files describe the unchanged tree: a run against a seeded change must not leave its own behind
+  git -C /verif checkout -q -- evidence
   preds=$(grep -oE "predicate [A-Za-z0-9]+ is false|table [a-z_]+: the code disagrees" /tmp/seedm_$s.log | sort | uniq -c | tr '\n' ';')
   drift=$(grep -c MODEL-DRIFT /tmp/seedm_$s.log)
   echo "{\"seed\":\"$s\",\"property\":\"$prop\",\"check_rc\":$rc,\"detected\":$([ $rc -eq 1 ] && echo true || echo false),\"what\":\"$preds\",\"drift_lines\":$drift,\"wall_s\":$(( $(date +%s) - t0 ))}" > $d/detect.json
